@@ -5,6 +5,13 @@ TECH = "contract-based deductive verification: pyvc VC generation from the real 
 TRUST = ("home-made VC generator (Python subset semantics of DESIGN section 2), assumed external contracts listed in the evidence "
          "file's trusted_base, solver soundness; see evidence.assumptions")
 CLAIMED = {
+    "C16": ("proof", "Equality/hash clauses derived from the real __hash__ bodies (dict displays evaluated symbolically, A-HASH): case citations are equal exactly when "
+            "volume, page and normalised reporter agree and neither page is a placeholder; placeholder, id. and unknown citations equal only themselves; citations of "
+            "different kinds are never equal; resources are equal exactly when their citations are; __eq__ is hash equality; the case hash reads only groups, edition guess "
+            "and class. Database-variation and re-parse clauses are bounded (stand-in) only.", "6/C16"),
+    "C20": ("proof", "clean_text: loop invariant text == fold(steps[:k], text0), sequential postcondition and the ValueError clause discharged by SMT for all step lists; the "
+            "three regex cleaners are classified (AST + CPython's regex parser, every run) into the family collapse(p, n, r) whose idempotence / no-remaining-run / "
+            "content-preservation are kernel-checked Lean theorems; the link re.sub == collapse is an assumption (bounded cross-check). html cleaner not covered.", "6/C20"),
     "C09": ("proof", "annotate_citations' loop invariant: the document text emitted so far (everything but the inserted before/after strings) equals the target "
             "text up to last_end, hence the whole target at exit -- no character dropped, duplicated or reordered -- discharged for all texts, annotation lists, "
             "modes and both diff engines (under E-DIFF), together with SpanUpdater's class invariant and maybe_balance_style_tags' slice contract.", "6/C09"),
